@@ -52,14 +52,14 @@ Theorem incrementer_work_wires_restored : forall wires work s,
 Proof. exact incrementer_restores. Qed.
 Print Assumptions incrementer_work_wires_restored.
 
-(* REFUTED clause: the fallback rule of Incrementer (used when fewer than n-1 work wires are given),
-   transcribed as written (for_loop(len(wires) - 1, 1, -1)), never flips the most significant wire:
-   on three wires the value 3 is mapped to 0 instead of 4 *)
-Theorem incrementer_fallback_refuted :
-  exists s s', run (incrementer_fallback [0; 1; 2]%nat) s = Some s' /\
-               val_be s [0; 1; 2]%nat = 3 /\ val_be s' [0; 1; 2]%nat = 0.
-Proof. exact incrementer_fallback_wrong. Qed.
-Print Assumptions incrementer_fallback_refuted.
+(* Incrementer fallback rule (fewer than n-1 work wires): MultiControlledX ladder from the most significant
+   wire (n-1 controls) down to 1 control, then X on the least significant wire: +1 mod 2^n, all n, all layouts *)
+Theorem incrementer_fallback_adds_one : forall wires s, NoDup wires ->
+  exists s', run (incrementer_fallback wires) s = Some s' /\
+    (forall i, ~ In i wires -> s' i = s i) /\
+    val_be s' wires = (val_be s wires + 1) mod 2 ^ Z.of_nat (length wires).
+Proof. exact incrementer_fallback_spec. Qed.
+Print Assumptions incrementer_fallback_adds_one.
 
 (* QubitSum |a,b,c> -> |a,b,a^b^c>; QubitCarry |a,b,c,d> -> |a,b,b^c,bc^d^(b^c)a> : one full-adder step *)
 Theorem qubit_sum_spec : forall a b c s, a <> c -> b <> c ->
